@@ -1,6 +1,7 @@
 SPECIFICATION MCSpec
 CONSTANTS
   Nodes = {"a"}
+  SnapCarriesLP = TRUE
   Kinds = {"E"}
   MaxOps = 2
   MaxSys = 0
@@ -12,6 +13,7 @@ CONSTANTS
   MaxStep = 2
   MaxZombie = 1
   MaxSnap = 0
+  MaxForeign = 0
   Keeps = {0}
   Eager = FALSE
 INVARIANTS TypeOK C18_ControllerDispatches C18_IdleMeansPublished C18_IdContent C18_NoSkip C18_FirstOrder C18_LPSound I_DispAboveLP NoPanic
